@@ -18,6 +18,30 @@ AXIOM_ALLOW = set()
 ENV = dict(os.environ, CARGO_NET_OFFLINE="true", CARGO_TARGET_DIR=TARGET)
 
 
+# A "family" is a self-contained sub-project (its own Coq project depending on the base
+# library in /verif/coq, its own extracted runner and Rust harness crate) so that families can
+# be developed and built independently.  The main family lives at the top level.
+class Family:
+    def __init__(self, name):
+        self.name = name
+        if name == "main":
+            self.coq = COQ
+            self.runner_dir = os.path.join(ROOT, "model_runner")
+            self.harness_dir = os.path.join(ROOT, "harness")
+            self.target = TARGET
+            self.bin_name = "pv-harness"
+        else:
+            base = os.path.join(ROOT, "fam", name)
+            self.coq = os.path.join(base, "coq")
+            self.runner_dir = os.path.join(base, "runner")
+            self.harness_dir = os.path.join(base, "harness")
+            self.target = os.path.join(CACHE, "target_" + name)
+            self.bin_name = "pv-harness-" + name
+        self.runner = os.path.join(self.runner_dir, "runner")
+
+MAIN = Family("main")
+
+
 class Lock:
     def __init__(self, name):
         os.makedirs(CACHE, exist_ok=True)
@@ -44,19 +68,26 @@ def regen():
     return rc == 0, out
 
 
-def coq_make(targets, timeout=1500):
+def coq_make(targets, timeout=1500, fam=None):
     """full .vo build of the given targets (and what they depend on)"""
-    with Lock("coq"):
-        if not os.path.exists(os.path.join(COQ, "Makefile")) or \
-           os.path.getmtime(os.path.join(COQ, "_CoqProject")) > os.path.getmtime(os.path.join(COQ, "Makefile")):
-            sh(["coq_makefile", "-f", "_CoqProject", "-o", "Makefile"], cwd=COQ)
-        rc, out = sh(["timeout", str(timeout), "make", "-j%d" % NPROC] + targets, cwd=COQ, timeout=timeout + 30)
+    fam = fam or MAIN
+    if fam.name != "main":
+        # the base library first (families import it through -Q)
+        ok, out = coq_make([], timeout=timeout)
+        if not ok:
+            return ok, out
+    with Lock("coq_" + fam.name):
+        if not os.path.exists(os.path.join(fam.coq, "Makefile")) or \
+           os.path.getmtime(os.path.join(fam.coq, "_CoqProject")) > os.path.getmtime(os.path.join(fam.coq, "Makefile")):
+            sh(["coq_makefile", "-f", "_CoqProject", "-o", "Makefile"], cwd=fam.coq)
+        rc, out = sh(["timeout", str(timeout), "make", "-j%d" % NPROC] + targets, cwd=fam.coq, timeout=timeout + 30)
     return rc == 0, out
 
 
-def grep_forbidden():
+def grep_forbidden(fam=None):
     hits = []
-    for d, _, fs in os.walk(COQ):
+    dirs = [COQ] + ([fam.coq] if fam and fam.name != "main" else [])
+    for d, _, fs in (x for dd in dirs for x in os.walk(dd)):
         for f in fs:
             if f.endswith(".v"):
                 p = os.path.join(d, f)
@@ -71,17 +102,18 @@ def grep_forbidden():
     return hits
 
 
-def proof_gate(prop):
+def proof_gate(prop, fam=None):
     """Builds Properties/<prop>.vo (and its dependencies) from the regenerated tables, re-runs
     coqc on the property file to capture Print Assumptions, checks axioms and forbidden words.
     Returns dict(ok, obligations, discharged, theorems, axioms, failed, log)."""
     res = dict(ok=False, obligations=0, discharged=0, theorems=[], axioms=[], failed=None, log="")
-    vfile = os.path.join(COQ, "Properties", prop + ".v")
+    fam = fam or MAIN
+    vfile = os.path.join(fam.coq, "Properties", prop + ".v")
     src = open(vfile, encoding="utf-8").read()
     thms = re.findall(r"^(?:Theorem|Corollary)\s+(\w+)", src, flags=re.M)
     res["theorems"] = thms
     res["obligations"] = len(thms)
-    ok, log = coq_make(["Properties/%s.vo" % prop])
+    ok, log = coq_make(["Properties/%s.vo" % prop], fam=fam)
     res["log"] = log[-6000:]
     if not ok:
         m = re.findall(r'File "\./([^"]+)", line (\d+)', log)
@@ -93,8 +125,11 @@ def proof_gate(prop):
     os.makedirs(gdir, exist_ok=True)
     gfile = os.path.join(gdir, prop + ".v")
     open(gfile, "w").write(src)
-    with Lock("coq"):
-        rc, out = sh(["timeout", "600", "coqc", "-Q", COQ, "PV", "-w", "-notation-overridden", gfile],
+    qargs = ["-Q", COQ, "PV"]
+    if fam.name != "main":
+        qargs += ["-Q", fam.coq, "PV" + fam.name.capitalize()]
+    with Lock("coq_" + fam.name):
+        rc, out = sh(["timeout", "600", "coqc"] + qargs + ["-w", "-notation-overridden", gfile],
                      cwd=gdir, timeout=630)
     if rc != 0:
         res["failed"] = "Properties/%s.v" % prop
@@ -110,7 +145,7 @@ def proof_gate(prop):
     res["axioms"] = sorted(set(axioms))
     bad_ax = [a for a in res["axioms"] if a not in AXIOM_ALLOW]
     n_print = len(re.findall(r"^Print Assumptions", src, flags=re.M))
-    forb = grep_forbidden()
+    forb = grep_forbidden(fam)
     if bad_ax:
         res["failed"] = "axioms not in allowlist: " + ", ".join(bad_ax)
     elif forb:
@@ -125,37 +160,42 @@ def proof_gate(prop):
     return res
 
 
-def build_runner():
-    with Lock("runner"):
-        ok, log = coq_make(["Extract/Extract.vo"])
+def build_runner(fam=None):
+    fam = fam or MAIN
+    with Lock("runner_" + fam.name):
+        ok, log = coq_make(["Extract/Extract.vo"], fam=fam)
         if not ok:
             return False, log
-        ml = os.path.join(COQ, "model.ml")
-        srcs = [ml] + [os.path.join(ROOT, "model_runner", f) for f in os.listdir(os.path.join(ROOT, "model_runner")) if f.endswith(".ml")]
-        if (not os.path.exists(RUNNER)) or any(os.path.getmtime(s) > os.path.getmtime(RUNNER) for s in srcs):
-            rc, out = sh(["sh", os.path.join(ROOT, "model_runner", "build.sh")], timeout=900)
+        ml = os.path.join(fam.coq, "model.ml")
+        srcs = [ml] + [os.path.join(fam.runner_dir, f) for f in os.listdir(fam.runner_dir) if f.endswith(".ml")]
+        srcs.append(os.path.join(ROOT, "model_runner", "util.ml"))
+        if (not os.path.exists(fam.runner)) or any(os.path.getmtime(x) > os.path.getmtime(fam.runner) for x in srcs):
+            rc, out = sh(["sh", os.path.join(fam.runner_dir, "build.sh")], timeout=900)
             if rc != 0:
                 return False, out
     return True, ""
 
 
-def build_harness(release=False, rustflags=None):
+def build_harness(release=False, rustflags=None, fam=None, features=None):
     """cargo build of the Rust harness against /repo's working tree"""
-    hd = os.path.join(ROOT, "harness")
-    with Lock("cargo"):
+    fam = fam or MAIN
+    hd = fam.harness_dir
+    with Lock("cargo_" + fam.name):
         lock_src = os.path.join(REPO, "Cargo.lock")
         lock_dst = os.path.join(hd, "Cargo.lock")
         if os.path.exists(lock_src) and not os.path.exists(lock_dst):
             open(lock_dst, "w").write(open(lock_src).read())
-        env = dict(ENV)
+        env = dict(ENV, CARGO_TARGET_DIR=fam.target)
         if rustflags:
             env["RUSTFLAGS"] = rustflags
         cmd = ["cargo", "build", "--offline", "--quiet"] + (["--release"] if release else [])
+        if features:
+            cmd += ["--features", features]
         rc, out = sh(cmd, cwd=hd, env=env, timeout=3000)
         if rc != 0 and "Cargo.lock" in out:
             open(lock_dst, "w").write(open(lock_src).read())
             rc, out = sh(cmd, cwd=hd, env=env, timeout=3000)
-    binp = os.path.join(TARGET, "release" if release else "debug", "pv-harness")
+    binp = os.path.join(fam.target, "release" if release else "debug", fam.bin_name)
     errs = "\n".join(l for l in out.splitlines() if l.startswith("error") or "-->" in l)[:3000]
     return rc == 0, binp, (errs or out[-3000:])
 
@@ -272,13 +312,14 @@ TRUSTED_BASE = [
 ]
 
 
-def std_setup(chk, need_runner=True, need_harness=True, release=False):
+def std_setup(chk, need_runner=True, need_harness=True, release=False, fam=None):
     """regenerate, proof gate, build runner + harness.  Returns (gate, harness_bin or None)."""
+    fam = fam or MAIN
     ok, out = regen()
     gate = None
     if not ok:
         chk.violation("translator failed: " + out.strip()[-400:], dict(kind="translator", output=out[-2000:]), no_input=True)
-    gate = proof_gate(chk.prop)
+    gate = proof_gate(chk.prop, fam)
     chk.cov["obligations"] = gate["obligations"]
     chk.cov["discharged"] = gate["discharged"]
     chk.cov["checker_cmd"] = "make -C coq Properties/%s.vo && coqc -Q . PV Properties/%s.v (Print Assumptions allowlist, forbidden-vernacular grep)" % (chk.prop, chk.prop)
@@ -287,13 +328,13 @@ def std_setup(chk, need_runner=True, need_harness=True, release=False):
     chk.cov["axioms"] = gate["axioms"]
     hb = None
     if need_runner:
-        ok, log = build_runner()
+        ok, log = build_runner(fam)
         if not ok and gate["ok"]:
             gate["ok"] = False
             gate["failed"] = "model extraction/runner build failed"
             gate["error"] = log[-800:]
     if need_harness:
-        ok, hb, log = build_harness(release=release)
+        ok, hb, log = build_harness(release=release, fam=fam)
         if not ok:
             chk.violation("harness does not build against the working tree: " + log[-300:],
                           dict(kind="harness-build", output=log), no_input=True)
